@@ -477,6 +477,8 @@ def lin_lits(rng, ctx):
 
 
 HINTS = {
+    ("BinaryPigeonholePrinciple", "pigeons"): lambda rng, ctx: rng.choice([0, 1, 2, 3, 4, -1]),
+    ("BinaryPigeonholePrinciple", "holes"): lambda rng, ctx: rng.choice([0, 1, 2, 3, 4, 5, 8, 9, -1]),
     ("PigeonholePrinciple", "pigeons"): lambda rng, ctx: rng.choice([0, 1, 2, 3, 4, 5, -1]),
     ("PigeonholePrinciple", "holes"): lambda rng, ctx: rng.choice([0, 1, 2, 3, 4, -1]),
     ("non_negative_int", "value"): lambda rng, ctx: rng.choice([0, 1, -1, 5, -7, 2 ** 70]),
